@@ -332,39 +332,59 @@ func loopCompleteRule(p *Prog, r *Report, id, text string, specs []loopSpec) {
 		}
 		info := fi.Pkg.TypesInfo
 		n := 0
-		ast.Inspect(fi.Decl, func(nd ast.Node) bool {
-			var body *ast.BlockStmt
-			switch x := nd.(type) {
-			case *ast.RangeStmt:
-				if sp.over != "" {
-					t := info.TypeOf(x.X)
-					if t == nil || !strings.Contains(t.String(), sp.over) {
+		// loops selected by element type are looked for in the anchor and its private helpers; untyped ones in
+		// the anchor, and in its helpers only when the anchor itself no longer loops
+		scope := []*FuncInfo{fi}
+		if sp.over != "" || !hasLoop(fi.Decl) {
+			scope = p.Region(sp.fn)
+		}
+		for _, rf := range scope {
+			ast.Inspect(rf.Decl, func(nd ast.Node) bool {
+				var body *ast.BlockStmt
+				switch x := nd.(type) {
+				case *ast.RangeStmt:
+					if sp.over != "" {
+						t := info.TypeOf(x.X)
+						if t == nil || !strings.Contains(t.String(), sp.over) {
+							return true
+						}
+					}
+					body = x.Body
+				case *ast.ForStmt:
+					if sp.over != "" {
 						return true
 					}
-				}
-				body = x.Body
-			case *ast.ForStmt:
-				if sp.over != "" {
+					body = x.Body
+				default:
 					return true
 				}
-				body = x.Body
-			default:
+				rs := nd
+				n++
+				site := fmt.Sprintf("%s/loop#%d over %s", sp.fn, n, sp.desc)
+				if lv := earlyLeave(info, body.List); lv != nil {
+					r.Bad(site, p.PosStr(lv.Pos()), "the loop body can leave early without an error ("+nodeKind(lv)+"): some "+sp.desc+" would be skipped")
+				} else {
+					r.OK(site, p.PosStr(rs.Pos()), "no break/continue/goto/successful return: every element is processed")
+				}
 				return true
-			}
-			rs := nd
-			n++
-			site := fmt.Sprintf("%s/loop#%d over %s", sp.fn, n, sp.desc)
-			if lv := earlyLeave(info, body.List); lv != nil {
-				r.Bad(site, p.PosStr(lv.Pos()), "the loop body can leave early without an error ("+nodeKind(lv)+"): some "+sp.desc+" would be skipped")
-			} else {
-				r.OK(site, p.PosStr(rs.Pos()), "no break/continue/goto/successful return: every element is processed")
-			}
-			return true
-		})
+			})
+		}
 		if n == 0 {
 			r.Bad(sp.fn+"/range over "+sp.desc, p.PosStr(fi.Decl.Pos()), "no loop over "+sp.desc+" found")
 		}
 	}
+}
+
+func hasLoop(n ast.Node) bool {
+	found := false
+	ast.Inspect(n, func(nd ast.Node) bool {
+		switch nd.(type) {
+		case *ast.RangeStmt, *ast.ForStmt:
+			found = true
+		}
+		return !found
+	})
+	return found
 }
 
 func nodeKind(n ast.Node) string {
